@@ -8,6 +8,9 @@
      pli/mod.rs        Encode::{encode_raw, encode, encode_into} (generic per-byte loop)
      pli/platform/avx2.rs  encode_into_avx2  (32-byte blocks, unknown mask, rescan, scalar tail)
      pli/platform/sse2.rs  encode_into_sse2  (16-byte blocks, strict loop bound)
+     pli/platform/neon.rs  encode_into_neon  (4 x 16-byte registers per iteration, strict loop bound,
+                       `encoded` starts at 0, tail call not guarded by `if i < l`; compiled on
+                       arm/aarch64 only: never run by the correspondence check, tied textually)
      pli/dispatch.rs   impl Encode for Pipeline<A, Dispatch> (arm -> kernel; table generated)
      seq.rs            EncodedSequence::{encode, from_str}, Display
      err.rs            InvalidSymbol(char)
@@ -159,7 +162,9 @@ Record kparams := {
   kp_strict : bool;       (* loop condition `i + STRIDE < l` (true) or `<=` (false) *)
   kp_init_km1 : bool;     (* encoded starts as set1(K - 1) (true) or set1(K) (false) *)
   kp_blendv : bool;       (* select with blendv (AVX2) or with or(andnot(m,e), and(m,idx)) (SSE2) *)
-  kp_testz : bool         (* error test with testz (AVX2) or store + any(!= 0) (SSE2) *)
+  kp_testz : bool;        (* error test with testz (AVX2) or store + any(!= 0) (SSE2) *)
+  kp_init_zero : bool;    (* encoded starts as vdupq_n_u8(0x00) (NEON); overrides kp_init_km1 *)
+  kp_tail_always : bool   (* the generic tail call is not guarded by `if i < l` (NEON) *)
 }.
 
 Definition blend (kp : kparams) (encoded index m : vec) : vec :=
@@ -169,7 +174,8 @@ Definition blend (kp : kparams) (encoded index m : vec) : vec :=
 Definition u8_of_nat (n : nat) : N := (N.of_nat n mod 256)%N.      (* `n as i8` as a lane *)
 
 Definition init_lane (kp : kparams) (A : abc) : N :=
-  if kp_init_km1 kp then u8_of_nat (a_K A - 1) else u8_of_nat (a_K A).
+  if kp_init_zero kp then 0%N
+  else if kp_init_km1 kp then u8_of_nat (a_K A - 1) else u8_of_nat (a_K A).
 
 (* for a in 0..K { index = set1(a); ascii = set1(alphabet[a]); m = cmpeq(letters, ascii);
                    encoded = blend(encoded, index, m); unknown = andnot(m, unknown) } *)
@@ -232,7 +238,7 @@ Definition encode_into_simd (kp : kparams) (A : abc) (seq : list byte) (dst : bu
     | Ok (i, dst1, error) =>
         match (if error_nonzero kp error then rescan A seq else Ok tt) with
         | Ok _ =>
-            if i <? l then
+            if (kp_tail_always kp || (i <? l))%bool then
               let r := encode_into_generic A (skipn i seq) (skipn i dst1) in
               (firstn i dst1 ++ fst r, snd r)
             else (dst1, Ok tt)
